@@ -1526,3 +1526,82 @@ func runC14Round3(c *Ctx) {
 	c.Rules[c.cur].Instances++
 	shareRule(c, "C13", runC13, []string{"C13.R6"}, "R9", "PROV", "the configuration handed to extensions is a Conf into which the typed configuration was marshalled – the step that applies redaction (same rule as C13.R6): no path hands out the raw resolved configuration instead", 1)
 }
+
+// ---------- C16.R10: only existing decoders can be enabled ----------
+func runC16Enabled(c *Ctx) {
+	p := c.P
+	c.Rule("R10", "GATE", "a name from the configured compression_algorithms list enters the table of enabled decoders only with a decoder that exists: a value looked up in the table of available decoders under a non-constant name is stored (or called) only on the found side of a comma-ok lookup or after a nil test – an unknown name (typo) is not enabled as a nil function that panics on the first request using it", 1)
+	pk := p.Pkg("config/confighttp")
+	if pk == nil {
+		c.Anchor("config/confighttp")
+		return
+	}
+	n := 0
+	for _, fn := range p.AllSrcFuncs(pk) {
+		allInstrs(fn, func(in ssa.Instruction) {
+			lk, ok := in.(*ssa.Lookup)
+			if !ok {
+				return
+			}
+			g, ok := strip(lk.X).(*ssa.UnOp)
+			if !ok {
+				return
+			}
+			gl, ok := g.X.(*ssa.Global)
+			if !ok || !strings.Contains(strings.ToLower(gl.Name()), "decoders") {
+				return
+			}
+			if _, isConst := lk.Index.(*ssa.Const); isConst {
+				return // a name the package itself defines
+			}
+			n++
+			ok2 := false
+			if lk.CommaOk {
+				// every use of the value is on the found side
+				ok2 = true
+				for _, r := range *lk.Referrers() {
+					ex, isEx := r.(*ssa.Extract)
+					if !isEx || ex.Index != 0 {
+						continue
+					}
+					for _, rr := range *ex.Referrers() {
+						found := false
+						for _, gd := range guardsOf(rr.Block()) {
+							v, br := boolOf(gd)
+							if e2, isE := v.(*ssa.Extract); isE && e2.Tuple == ssa.Value(lk) && e2.Index == 1 && br {
+								found = true
+							}
+						}
+						if !found {
+							ok2 = false
+						}
+					}
+				}
+			} else {
+				// plain lookup: every use behind a nil test of the value
+				ok2 = true
+				for _, r := range *lk.Referrers() {
+					if _, isDbg := r.(*ssa.DebugRef); isDbg {
+						continue
+					}
+					if bo, isBo := r.(*ssa.BinOp); isBo && (bo.Op == token.EQL || bo.Op == token.NEQ) {
+						continue
+					}
+					guarded := false
+					for _, gd := range guardsOf(r.Block()) {
+						if guardIsNilTest(gd, lk, false) {
+							guarded = true
+						}
+					}
+					if !guarded {
+						ok2 = false
+					}
+				}
+			}
+			c.Check(ok2, fmt.Sprintf("decoder lookup #%d by configured name in %s is checked", n, fnName(fn)), p.Pos(lk.Pos()), "used only where the decoder exists", "the decoder found under a configured name is used without checking that it exists: `compression_algorithms: [gzp]` enables a nil decoder, a request with that Content-Encoding passes the `enabled` test and the middleware calls a nil function – the server aborts the connection with a panic instead of answering 400")
+		})
+	}
+	if n == 0 {
+		c.Undecided("lookups in the available-decoder table by configured name", "-", "none found")
+	}
+}
